@@ -59,6 +59,8 @@ func c05SiteDecls() []string {
 		"func foo() {\n\ta()\n\tb()\n}",
 		"func seven() {\n\tp.Foo(1)\n\tw := foo(7)\n\tuse(w)\n}",
 		"func nine() {\n\tfoo(1, 2, 3)\n\ttri(a, b, c)\n\tbefore()\n\tp := acquire(1)\n\tq := acquire(2)\n\tmid()\n\trelease(q)\n\tafter()\n}",
+		"func ten() {\nrows:\n\tfor i := range xs {\n\t\tfoo(10)\n\t\tcontinue rows\n\t}\n\tfor {\n\t\tfoo(11)\n\t\tbreak\n\t}\n}",
+		"func load(path string, strict bool) (*Config, error) {\n\tprep()\n\treturn nil, nil\n}",
 		"func eight() {\n\tswitch {\n\tcase c:\n\t\tx := foo(8)\n\t\tuse(x)\n\t\tafter()\n\tdefault:\n\t\tfoo(9)\n\t}\n}",
 	}
 }
@@ -79,6 +81,8 @@ func c05Patches() []c05Patch {
 		{"expr-elision-tail", &model.Change{Kind: "expr", Meta: xm, Lines: model.L("-foo(DOTS_1, x)", "+mark(DOTS_1, x)")}},
 		{"expr-elision-ctx", &model.Change{Kind: "expr", Meta: xm, Lines: model.L(" tri(", " DOTS_1,", "-x,", "+mark(x),", " )")}},
 		{"stmt-elision-retry", &model.Change{Kind: "stmts", Meta: xv, Lines: model.L(" v := acquire(x)", " DOTS_1", "-release(v)", "+releaseAll(v, x)")}},
+		{"for-dots", &model.Change{Kind: "stmts", Meta: xm, Lines: model.L(" for DOTS_1 {", "-foo(x)", "+mark(x)", " DOTS_2", " }")}},
+		{"sig-two-elisions", &model.Change{Kind: "decl", Lines: model.L(" func load(_ DOTS_1) (DOTS_2, error) {", "-\tprep()", "+\tmark()", " DOTS_3", " }")}},
 		{"funcdecl", &model.Change{Kind: "decl", Lines: model.L("-func foo() {", "+func mark() {", " DOTS_1", " }")}},
 		{"typedecl", &model.Change{Kind: "decl", Lines: model.L("-type T struct{ a int }", "+type T struct{ mark int }")}},
 		{"valuedecl", &model.Change{Kind: "decl", Meta: xm, Lines: model.L("-var three = foo(x)", "+var three = mark(x)")}},
